@@ -409,6 +409,12 @@ class Interp:
                 if isinstance(op, ast.Mult):
                     return a.scaled(lambda x: x * fb)
                 return a.scaled(lambda x: Fraction(x) / fb)
+        if isinstance(op, ast.Add):
+            # counting truth values (c += <comparison>): keep the indicator structure
+            for u_, w_ in ((a, b), (b, a)):
+                if is_z3(w_) and z3.is_bool(w_) and (_num(u_) or (isinstance(u_, ISum) and _num(u_.const))):
+                    base_ = u_ if isinstance(u_, ISum) else ISum(u_)
+                    return ISum(base_.const, base_.items + ((w_, 1),))
         ta, tb = Rnum(a), Rnum(b)
         if isinstance(op, ast.Add): return ta + tb
         if isinstance(op, ast.Sub): return ta - tb
